@@ -80,7 +80,8 @@ bool MPSInput::readLine()
       // Read until we have a non-empty, non-comment line.
       do
       {
-         if(!m_input.getline(m_buf, sizeof(m_buf)).good() && !m_input.eof())
+         // at the end of the file getline() fails and sets eofbit; without this test the loop never ends
+         if(m_input.getline(m_buf, sizeof(m_buf)).fail())
             return false;
 
          m_lineno++;
